@@ -198,6 +198,8 @@ fn trace_check(program: &Program, job: &Value) -> Value {
     let mut bad_aux = 0usize;
     let mut aux_checked = 0usize;
     let mut bus_final: Option<String> = None;
+    let mut aux_first: Vec<String> = Vec::new();
+    let mut aux_final: Vec<String> = Vec::new();
     if job["aux"].as_bool().unwrap_or(false) {
         let mut trace = trace;
         let nrand = miden_air::trace::AUX_TRACE_RAND_ELEMENTS;
@@ -215,10 +217,12 @@ fn trace_check(program: &Program, job: &Value) -> Value {
             // product that must be back at 1 on the last row before the random rows
             let last = n - miden_processor::ExecutionTrace::NUM_RAND_ROWS - 1;
             bus_final = Some(aux.get(miden_air::trace::CHIPLETS_AUX_TRACE_OFFSET, last).to_string());
+            aux_first = (0..aux.num_cols()).map(|c| aux.get(c, 0).to_string()).collect();
+            aux_final = (0..aux.num_cols()).map(|c| aux.get(c, last).to_string()).collect();
         }
     }
     json!({"status":"ok","rows": rows, "trace_len": n, "nonzero": bad, "bad_assertions": bad_assert, "constraints": nmain,
-           "bad_aux_assertions": bad_aux, "aux_assertions": aux_checked, "bus_final": bus_final})
+           "bad_aux_assertions": bad_aux, "aux_assertions": aux_checked, "bus_final": bus_final, "aux_first": aux_first, "aux_final": aux_final})
 }
 
 /// Executes a program whose root is one span made of the given operations and checks the decoder
@@ -337,7 +341,9 @@ fn span_decode(job: &Value) -> Value {
 }
 
 fn main() {
-    panic::set_hook(Box::new(|_| {}));
+    if std::env::var("REPLAY_VERBOSE_PANIC").is_err() {
+        panic::set_hook(Box::new(|_| {}));
+    }
     let args: Vec<String> = std::env::args().collect();
     let jobs: Value = serde_json::from_str(&std::fs::read_to_string(&args[1]).unwrap()).unwrap();
     let mut out = Vec::new();
